@@ -49,11 +49,13 @@ fn main() -> ExitCode {
             }
         }
         let total = id as usize;
+        // `processors()` is already cut to the quota; start from every processor so that the builder's own
+        // quota handling is what is exercised
         let hw = SystemHardware::fake(builder);
         let limit = limit.max(1);
         let mut bad = None;
         if policy == "quota_take" {
-            let got = hw.processors().to_builder().enforce_resource_quota().take(NonZero::new(n).expect("n > 0"));
+            let got = hw.all_processors().to_builder().enforce_resource_quota().take(NonZero::new(n).expect("n > 0"));
             match got {
                 None if n <= limit && n <= total => bad = Some(format!("take({n}) returned nothing although the quota allows {limit} and {total} candidates exist")),
                 Some(set) if n > limit => bad = Some(format!("take({n}) returned {} processors although the quota allows only {limit}", set.len())),
@@ -62,7 +64,7 @@ fn main() -> ExitCode {
             }
         } else {
             for which in 0..5 {
-                let b = hw.processors().to_builder().enforce_resource_quota();
+                let b = hw.all_processors().to_builder().enforce_resource_quota();
                 let b = match which {
                     0 => b,
                     1 => b.prefer_same_memory_region(),
@@ -71,6 +73,7 @@ fn main() -> ExitCode {
                     _ => b.different_memory_regions(),
                 };
                 if let Some(set) = b.take_all() {
+                    eprintln!("take_all policy #{which}: {} processors (quota limit {limit}, {total} candidates)", set.len());
                     if set.len() > limit {
                         bad = Some(format!("take_all (policy #{which}) returned {} processors although the quota allows only {limit}", set.len()));
                     }
